@@ -203,6 +203,73 @@ func prefixes(repo string) {
 			fmt.Fprintf(&out, "def %sPrefixes : List (String × Nat) := [%s]\n\n", strings.ToLower(name), strings.Join(rows, ", "))
 		}
 	}
+	// FormatNumber: the tagless switch that chooses the format from the whole part
+	// (`case wholePart >= N: format = "%.Df"` ..., `default: format = "%.Df"`), the guards of the
+	// prefix loop (`w >= 1`) and of the exact branch (`prefix.Multiplier == 1`), and the mantissa.
+	fn := findFunc(f, "Humaner", "FormatNumber")
+	if fn == nil {
+		die(f.Pos(), "FormatNumber not found")
+	}
+	decimalsOf := func(e ast.Expr) string {
+		v := strLit(e)
+		if len(v) != 4 || v[0] != '%' || v[1] != '.' || v[3] != 'f' || v[2] < '0' || v[2] > '9' {
+			die(e.Pos(), "format %q is not of the form %%.Nf", v)
+		}
+		return string(v[2])
+	}
+	var cases []string
+	def := ""
+	var mant, loopGuard, exactGuard string
+	ast.Inspect(fn.Body, func(n ast.Node) bool {
+		switch t := n.(type) {
+		case *ast.SwitchStmt:
+			if t.Tag != nil {
+				die(t.Pos(), "FormatNumber: switch with a tag")
+			}
+			for _, c := range t.Body.List {
+				cc := c.(*ast.CaseClause)
+				if len(cc.Body) != 1 {
+					die(cc.Pos(), "FormatNumber: case body")
+				}
+				as, ok := cc.Body[0].(*ast.AssignStmt)
+				if !ok || len(as.Lhs) != 1 || exprText(as.Lhs[0]) != "format" {
+					die(cc.Pos(), "FormatNumber: case does not assign format")
+				}
+				d := decimalsOf(as.Rhs[0])
+				if len(cc.List) == 0 {
+					def = d
+					continue
+				}
+				be, ok := cc.List[0].(*ast.BinaryExpr)
+				if !ok || len(cc.List) != 1 || be.Op != token.GEQ || exprText(be.X) != "wholePart" {
+					die(cc.Pos(), "FormatNumber: case is not `wholePart >= N`")
+				}
+				cases = append(cases, fmt.Sprintf("(%s, %s)", evalRat(be.Y).Num().String(), d))
+			}
+		case *ast.AssignStmt:
+			if len(t.Lhs) == 1 && exprText(t.Lhs[0]) == "mantissa" {
+				mant = srcText(t.Rhs[0])
+			}
+		case *ast.IfStmt:
+			c := srcText(t.Cond)
+			if strings.HasPrefix(c, "w ") {
+				loopGuard = c
+			}
+			if strings.HasPrefix(c, "prefix.Multiplier") {
+				exactGuard = c
+			}
+		}
+		return true
+	})
+	if def == "" {
+		die(fn.Pos(), "FormatNumber: no default format")
+	}
+	fmt.Fprintf(&out, "/-- FormatNumber: (threshold of the whole part, decimals) in source order; decimals otherwise -/\n")
+	fmt.Fprintf(&out, "def formatCases : List (Nat × Nat) := [%s]\n", strings.Join(cases, ", "))
+	fmt.Fprintf(&out, "def formatDefault : Nat := %s\n", def)
+	fmt.Fprintf(&out, "def formatMantissa : String := %s\n", q(mant))
+	fmt.Fprintf(&out, "def formatLoopGuard : String := %s\n", q(loopGuard))
+	fmt.Fprintf(&out, "def formatExactGuard : String := %s\n\n", q(exactGuard))
 }
 
 // ---------------------------------------------------------------- sizes/output.go
